@@ -728,6 +728,16 @@ def rule_r4_r5(ctx):
     p = ctor_param(ctor)
     re_calls = [c for c in calls_in(ctor) if (call_name(c) or "").startswith("re.")]
     if len(re_calls) != 1:
+        # a pattern compiled elsewhere: judge the anchoring of that compilation if it is visible in this module
+        comp = [c for q_, f_ in module.functions() for c in calls_in(f_) if call_name(c) == "re.compile" and c.args and isinstance(c.args[0], (ast.JoinedStr, ast.BinOp, ast.Constant))]
+        used = [c for c in calls_in(ctor) if isinstance(c.func, ast.Attribute) and c.func.attr in ("match", "search", "fullmatch") and not (call_name(c) or "").startswith("re.")]
+        if not re_calls and used and comp:
+            lit = "".join(x for x in (template(comp[0].args[0]) or []) if isinstance(x, str))
+            exact = used[0].func.attr == "fullmatch" or lit.endswith("\\Z")
+            ctx.check(exact, "R5-anchoring", f"{Z3H}:{name}", "full match", site(used[0]),
+                      f"the subject is matched with `.{used[0].func.attr}` against a pattern compiled as `{src(comp[0].args[0])[:40]}`: '$' also matches before a trailing newline, so "
+                      "\"ab\\n\" in (re.+ (re.range \"a\" \"z\")) is judged true where Z3 says false", "re.fullmatch or \\Z")
+            return
         raise Unrecognised("C05.R5", f"{Z3H}:{name}", "expected exactly one re.<match function> call")
     rc = re_calls[0]
     fnname = call_name(rc)
@@ -860,7 +870,9 @@ def rule_r6(ctx):
             # recognised-bad shapes: same operator family with a different operator / missing guard
             exp = sorted(EXPECT_TEXT[key])[0]
             known_bad = {
-                "z3pred:z3.is_mod": {"A[0] % A[1]": "Python % takes the sign of the divisor; SMT-LIB mod is non-negative ((mod 7 (- 2)) = 1)"},
+                "z3pred:z3.is_mod": {"A[0] % A[1]": "Python % takes the sign of the divisor; SMT-LIB mod is non-negative ((mod 7 (- 2)) = 1)",
+                                     "operator.mod(*A)": "operator.mod is Python's %, which takes the sign of the divisor; SMT-LIB mod is non-negative ((mod 7 (- 2)) = 1)",
+                                     "operator.mod(A[0], A[1])": "operator.mod is Python's %, which takes the sign of the divisor; SMT-LIB mod is non-negative"},
                 "z3kind:z3.Z3_OP_SEQ_AT": {"A[0][A[1]]": "IndexError / wraparound outside [0, len)"},
                 "z3kind:z3.Z3_OP_SEQ_EXTRACT": {"A[0][A[1]:A[1] + A[2]]": "negative offset or length wraps around in Python, SMT-LIB yields ''"},
                 "z3kind:z3.Z3_OP_STR_TO_CODE": {"ord(A[0])": "TypeError unless exactly one character; SMT-LIB: -1"},
